@@ -68,7 +68,7 @@ var gens = map[string]func(cfg Config, emit Emit) error{}
 var execs = map[string]func(args []string) Result{}
 
 // serialOps must not run concurrently with other cases (timing / process-global state).
-var serialOps = map[string]bool{}
+var serialOps = map[string]bool{"handle": true}
 
 func main() {
 	tier := flag.String("tier", "quick", "quick|thorough")
